@@ -70,6 +70,8 @@ pub struct Flags {
     pub overflow: bool,
     /// exp consulted more than once in a step, or for a move that needs no draw
     pub exp_twice: bool,
+    /// C20: number of evaluated proposals outside (steps - inner, steps], or early/late stop
+    pub bad_count: bool,
 }
 
 pub struct Mon {
@@ -88,6 +90,7 @@ pub struct Mon {
     pub pend_exp_n: usize,
     // schedule per spec
     pub proposals: u64,
+    pub last_equal: bool,
     pub in_loop: u64,
     pub inner_eff: u64,
     pub kt_spec: f64,
@@ -111,6 +114,10 @@ pub struct Mon {
     pub powf_ret: f64,
     pub powf_choice: f64,
     pub flags: Flags,
+    /// a valid proposal scored strictly below the held score (its fate depends on temperature)
+    pub saw_worse: bool,
+    /// kt_finish schedule requested at kt_start > 0 but powf never consulted
+    pub powf_missing: bool,
     pub first_bad_call: usize,
     /// false once a decision could not be determined: later observations prove nothing
     pub reliable: bool,
@@ -144,6 +151,7 @@ pub fn install(cfg: Cfg, script: Script, init: [f64; NP], exp_choice: u32, powf_
         pend_score: 0.,
         pend_exp_n: 0,
         proposals: 0,
+        last_equal: false,
         in_loop: 0,
         inner_eff: if inner_eff == 0 { 1 } else { inner_eff },
         kt_spec: cfg.kt_start,
@@ -165,6 +173,8 @@ pub fn install(cfg: Cfg, script: Script, init: [f64; NP], exp_choice: u32, powf_
         powf_ret: 0.,
         powf_choice,
         flags: Flags::default(),
+        saw_worse: false,
+        powf_missing: false,
         first_bad_call: usize::MAX,
         reliable: true,
     };
@@ -248,6 +258,7 @@ impl Mon {
         } else if s == cur {
             accept = true;
         } else if s < cur {
+            self.saw_worse = true;
             if kt == 0. {
                 accept = false;
             } else if kt > 0. {
@@ -406,17 +417,21 @@ impl Mon {
                 }
             }
         }
-        if diff == 0 {
-            // same vector as the held state: same score, decision irrelevant
-            return Some(self.cur);
-        }
         self.proposals += 1;
         self.pend = true;
         self.pend_vec = v;
+        self.pend_exp_n = self.exp_n;
+        if diff == 0 {
+            // same vector as the held state: a score is a function of the parameters, so the
+            // answer is the held score; accepting or rejecting it changes nothing.
+            self.pend_valid = true;
+            self.pend_score = self.cur;
+            self.last_equal = true;
+            return Some(self.cur);
+        }
+        self.last_equal = false;
         self.pend_valid = (self.script.valid >> t) & 1 == 1;
         self.pend_score = self.script.score[t];
-
-        self.pend_exp_n = self.exp_n;
         if self.pend_valid {
             Some(self.pend_score)
         } else {
@@ -424,8 +439,10 @@ impl Mon {
         }
     }
 
-    /// After the run: resolve the last step; `fin` = vector of the returned state.
-    pub fn finish(&mut self, fin: [u64; NP]) {
+    /// After the run: `n` = number of score() calls the optimiser made after the initial one,
+    /// `last_equal` = whether the last of them saw the held vector (then it may have been the
+    /// final validity check rather than a proposal); `fin` = vector of the returned state.
+    pub fn finish(&mut self, n: u64, last_equal: bool, fin: [u64; NP]) {
         self.resolve();
         let mut j = 0;
         while j < NP {
@@ -436,6 +453,47 @@ impl Mon {
                 }
             }
             j += 1;
+        }
+        // C18: the cooling factor requested through kt_finish.  Under Kani powf is stubbed and its
+        // arguments are visible: base = finish/start, and the exponent e must spread the cooling
+        // over the L = steps/inner loops of the run (within one cooling step): L-1 <= 1/e <= L+1.
+        #[cfg(kani)]
+        {
+            if let (None, Some(fin)) = (self.cfg.kt_ratio, self.cfg.kt_finish) {
+                let l = if self.cfg.steps == 0 { 0 } else { self.cfg.steps / self.inner_eff };
+                if self.cfg.kt_start > 0. && l >= 1 {
+                    if self.powf_n == 0 {
+                        self.powf_missing = true;
+                    } else {
+                        let base_ok = rel_close(self.powf_base, fin / self.cfg.kt_start, 1e-9);
+                        let inv = 1. / self.powf_exp;
+                        let lf = l as f64;
+                        let exp_ok = inv >= (lf - 1.) * (1. - 1e-9) && inv <= (lf + 1.) * (1. + 1e-9);
+                        if !(base_ok && exp_ok) {
+                            self.flags.bad_powf = true;
+                        }
+                    }
+                }
+            }
+        }
+        // C20: amount of work.  P = number of proposals is n, or n-1 if the last call was the
+        // final check.
+        let steps = self.cfg.steps;
+        let p_full = if steps == 0 { 0 } else { (steps / self.inner_eff) * self.inner_eff };
+        let cand_a = n;
+        let cand_b = if last_equal && n > 0 { n - 1 } else { n };
+        let ok_p = |p: u64| -> bool { p <= steps && p + self.inner_eff > steps };
+        let mut ok;
+        if self.conv_stop_at > 0 && self.conv_stop_at <= p_full {
+            ok = cand_a == self.conv_stop_at || cand_b == self.conv_stop_at;
+        } else {
+            ok = ok_p(cand_a) || ok_p(cand_b);
+        }
+        if steps == 0 {
+            ok = cand_b == 0;
+        }
+        if !ok && self.reliable {
+            self.flags.bad_count = true;
         }
     }
 }
@@ -550,19 +608,23 @@ pub fn run(cfg: &Cfg, init: [f64; NP]) {
     let opt = b.build();
     let out = opt.optimise_state(st);
     let calls_in_opt = mon().calls;
-    // observe the returned state through State::score()
+    let last_equal = mon().last_equal;
+    let props_in_opt = mon().proposals;
+    // settle the optimiser's last step before observing, then observe the returned state
+    // through State::score() (the only window the opaque `impl State` offers).
+    mon().resolve();
+    let saved_loops = (mon().in_loop, mon().loops_done);
     let _ = out.score();
-    let fin = mon().vecs[if mon().calls > 0 { mon().calls - 1 } else { 0 }];
-    // the observation call itself must not count as a proposal
     let m = mon();
-    if m.pend && m.calls - 1 >= calls_in_opt {
-        // the last on_score() call was ours: it registered a pending "proposal" only if the
-        // returned vector differs from held; undo that bookkeeping and let finish() compare.
-        m.pend = false;
-        m.proposals -= 1;
-    }
+    let fin = m.vecs[if m.calls > 0 { m.calls - 1 } else { 0 }];
+    // the observation call is not a step of the optimiser
+    m.pend = false;
+    m.proposals = props_in_opt;
+    m.in_loop = saved_loops.0;
+    m.loops_done = saved_loops.1;
     m.calls = calls_in_opt;
-    m.finish(fin);
+    let n = if calls_in_opt > 0 { (calls_in_opt - 1) as u64 } else { 0 };
+    m.finish(n, last_equal, fin);
     std::mem::forget(out);
 }
 
